@@ -188,6 +188,24 @@ def oracle(case):
         from vlib.core import crash_signature
         return out.bad(crash_signature(exc, "tag-manager-raises") or f"tag-manager-raises:{type(exc).__name__}",
                        f"{exc!r}\n{tsv}")
+    # object history: asking again, asking without context, and a second manager over the same input object
+    try:
+        before = [str(o) if o is not None else None for o in objs]
+        plain = tm.get_hed_objs(include_context=False)
+        objs_again = tm.get_hed_objs(include_context=True)
+        em2 = EventManager(tab, sch, extra_defs=def_dict())
+    except Exception as exc:  # noqa
+        from vlib.core import crash_signature
+        return out.bad(crash_signature(exc, "second-use-raises") or f"second-use-raises:{type(exc).__name__}",
+                       f"{exc!r}\n{tsv}")
+    if before != [str(o) if o is not None else None for o in objs_again]:
+        out.bad("context-objects-differ-on-second-call", f"{before} vs {[str(o) for o in objs_again]}\n{tsv}")
+    if any(o is not None and "Event-context" in str(o) for o in plain):
+        out.bad("context-present-when-not-asked-for", f"{[str(o) for o in plain]}\n{tsv}")
+    if [str(c) for c in em2.contexts] != [str(c) for c in em.contexts] or \
+            [float(x) for x in em2.onsets] != onsets:
+        out.bad("second-manager-over-same-input-differs", f"{[str(c) for c in em.contexts]} vs "
+                                                          f"{[str(c) for c in em2.contexts]}\n{tsv}")
     for t in pts:
         i = rep[round(t, 6)]
         exp_ctx = {p["label"] for p in procs if p["start"] < t and
